@@ -31,9 +31,13 @@
        statements are of that relation, loaded as the root frame, is run by execute_do to result `empty` with exactly
        its value (VM/SimProg.v, C02_program_runs, C02_program_ref), also when the root scope itself is left by exitWith
        (C02_program_runs_with_exit).
+       The markers a program logs (diag_log) are part of the matched state, so the theorems also say in which order statements
+       run (C02_program_trace); with ns do {..}, getVariable / setVariable, private "x" and more operators are constructors.
+       try {..} catch {..} with throw is covered for throws at statement level through call / if-then(-else) / handlers that
+       throw again (C02_vm_runs_throw, C02_ref_runs_throw; machine lemmas in VM/SimThrowOps.v).
        NOT covered by the simulation: switch,
-       exitWith inside an operand, breakOut, try / catch / throw, waitUntil, nil operands, a while loop with an empty
-       body or a non-boolean condition - for these the
+       exitWith inside an operand, breakOut, a throw inside an operand or a loop body, waitUntil, nil operands, a while loop with
+       an empty body or a non-boolean condition - for these the
        per-construct theorems below and the program-level differential are the evidence;
      - the compiler emits the post-order of the source (code blocks, binary operators, arrays);
      - per-construct characterisations of the VM model: which block is entered, with which bindings, how often, and when a
@@ -47,7 +51,7 @@
    Properties_C05 (one value per scope, regions). *)
 From Coq Require Import String Ascii.
 From Coq Require Import ZArith List Bool Lia.
-From SqfVerif Require Import Gen.DiagCodes Gen.Overloads VM.VmDefs VM.VmExec VM.RefSem VM.C02Proofs VM.SimDefs VM.SimProofs VM.SimBlock VM.SimCtl VM.SimRun VM.SimExit VM.SimProg.
+From SqfVerif Require Import Gen.DiagCodes Gen.Overloads VM.VmDefs VM.VmExec VM.RefSem VM.C02Proofs VM.SimDefs VM.SimProofs VM.SimBlock VM.SimCtl VM.SimRun VM.SimThrowOps VM.SimExit VM.SimProg.
 Import ListNotations.
 Local Open Scope string_scope.
 Local Open Scope list_scope.
@@ -476,7 +480,7 @@ Qed.
 Theorem C02_ref_runs_while : forall cond body s first v s', zwhile cond body s first v s' ->
   exists f0 k0, forall f, f0 <= f -> forall k, k0 <= k -> forall n, first = Nat.eqb n 0 ->
     while_loop_f f cond body k s n = (ONormal v, s').
-Proof. exact (proj2 (proj2 (proj2 (proj2 (proj2 (proj2 ref_runs_z)))))). Qed.
+Proof. exact (proj1 (proj2 (proj2 (proj2 (proj2 (proj2 (proj2 ref_runs_z))))))). Qed.
 Print Assumptions C02_ref_runs_while.
 Theorem C02_vm_runs_while : forall cond body s first v s', zwhile cond body s first v s' ->
   forall r c f fc frest below loops,
@@ -486,7 +490,7 @@ Theorem C02_vm_runs_while : forall cond body s first v s', zwhile cond body s fi
     leaf_first cond -> leaf_first body -> f_ns f = f_ns fc -> f_base fc <= length below ->
     exists r' c' fc' rest', Steps r r' /\ r' <> r /\ Mach s' r' c' fc' rest' /\ c_values c' = cv v :: below /\
       kept fc fc' /\ Forall2 kept frest rest'.
-Proof. exact (proj2 (proj2 (proj2 (proj2 (proj2 (proj2 vm_runs_z)))))). Qed.
+Proof. exact (proj1 (proj2 (proj2 (proj2 (proj2 (proj2 (proj2 vm_runs_z))))))). Qed.
 Print Assumptions C02_vm_runs_while.
 (* a derivation: i = 0; while { i < 3 } do { i = i + 1 }  goes round three times, leaves i = 3 and yields nil *)
 Definition ex_while : expr :=
@@ -660,4 +664,96 @@ Proof.
       { eapply ZPure; eapply PStr. }
       reflexivity. }
   reflexivity.
+Qed.
+
+(* ---- try {..} catch {..} and throw (VM/SimThrowOps.v, relation zthrow of VM/SimExit.v).  A block is LEFT BY A THROW when, after
+   statements that run normally, it reaches `throw v`, `if c throw v`, or a scope construct standing as a statement - call {..},
+   if-then(-else), a try-catch whose own handler throws - whose block is left by a throw; try-catch is a constructor of the
+   expression relation with the two outcomes "the block ran to its end / was left by exitWith" and "the block was left by a
+   throw, the handler ran".  Reference side: the block evaluates to OThrow with the state at the throw (the scopes in between
+   closed).  Machine side: in any chain of frames in which the innermost handler frame is ft (the frames above it carry none),
+   the machine reaches the state in which ft runs its handler from position 0 with _exception bound, every frame above it is gone,
+   the reference state Matches, and what lies on the operand stack above ft's base are nils only (throw_any pops frames without
+   clearing their parts of the stack; at statement level these hold nothing else, which is what `under` / Fresh now say).
+   Not covered: a throw inside an operand, inside a loop body, or past the last handler. *)
+Theorem C02_ref_runs_throw : forall s reg b x s', zthrow s reg b x s' ->
+  exists f0, forall f, f0 <= f -> eval_block f s b reg = (OThrow x, s').
+Proof. exact (proj2 (proj2 (proj2 (proj2 (proj2 (proj2 (proj2 ref_runs_z))))))). Qed.
+Print Assumptions C02_ref_runs_throw.
+Theorem C02_vm_runs_throw : forall s reg b x s', zthrow s reg b x s' ->
+  forall r c f restf below pre inner ft rest h jn below_t,
+    AtM s reg r c f restf below -> Fresh c below ->
+    f_code f = pre ++ compile_block b -> f_pos f = length pre ->
+    f :: restf = inner ++ ft :: rest -> Forall (fun m => f_err m = None) inner -> f_err ft = Some (ECatch h) ->
+    below = jn ++ below_t -> under jn -> length below_t = f_base ft ->
+    exists r' c' rest', Steps r r' /\ Forall2 kept rest rest' /\
+      Good r' c' /\ quirks r' = ([], 0) /\ c_frames c' = handler_frame ft h (cv x) :: rest' /\
+      Match (set_top_vars (drop_scopes (length inner) s') [("_exception", x)]) r' (handler_frame ft h (cv x) :: rest') /\
+      exists jn', c_values c' = VNil :: jn' ++ below_t /\ under jn'.
+Proof. exact (proj2 (proj2 (proj2 (proj2 (proj2 (proj2 (proj2 vm_runs_z))))))). Qed.
+Print Assumptions C02_vm_runs_throw.
+(* r = try { diag_log "a"; if (true) then { throw "boom" }; diag_log "dead"; 1 } catch { diag_log _exception; _exception + "!" }; r
+   yields "boom!", logs a then boom, and nothing behind the throw runs *)
+Definition ex_try_prog : list stmt :=
+  [SAssign "r" (EBinary "catch"
+     (EUnary "try" (ECode [SExpr (EUnary "diag_log" (EStr "a"));
+                           SExpr (EBinary "then" (EUnary "if" (EBool true)) (ECode [SExpr (EUnary "throw" (EStr "boom"))]));
+                           SExpr (EUnary "diag_log" (EStr "dead")); SExpr (ENum 1)]))
+     (ECode [SExpr (EUnary "diag_log" (EVar "_exception")); SExpr (EBinary "+" (EVar "_exception") (EStr "!"))]));
+   SExpr (EVar "r")].
+Example try_inhabited : exists s', zprog init_state RNone ex_try_prog (RStr "boom!") s' /\ st_trace s' = ["boom"; "a"].
+Proof.
+  eexists. split.
+  { eapply ZPCons.
+    - eapply ZSAssign.
+      { discriminate. }
+      { eapply ZCatchThrow; [reflexivity|eapply ZTryVal; [reflexivity|intros ? ?; discriminate|eapply ZCode]|eapply ZCode| |].
+        - eapply ZTCons.
+          + eapply ZSExprV. eapply ZDiag; [reflexivity|intros ? ?; discriminate|eapply ZPure; eapply PStr|split; discriminate|reflexivity].
+          + eapply ZTThen; [reflexivity|eapply ZIf; [reflexivity|intros ? ?; discriminate|eapply ZPure; eapply PBool]|eapply ZCode|].
+            eapply ZTThrow; [reflexivity|intros ? ?; discriminate|eapply ZPure; eapply PStr|split; discriminate].
+        - eapply ZBCons.
+          + eapply ZSExprV. eapply ZDiag; [reflexivity|intros ? ?; discriminate|eapply ZPure; eapply PVarL; reflexivity|split; discriminate|reflexivity].
+          + eapply ZBLast. eapply ZSExprV. eapply ZPure. eapply PBin; [eapply PVarL; reflexivity|eapply PStr|reflexivity]. }
+      { split; discriminate. }
+    - eapply ZPLast. eapply ZSExprV. eapply ZPure. eapply PVarG; reflexivity. }
+  reflexivity.
+Qed.
+(* try { try { throw "a" } catch { throw (_exception + "b"); diag_log "dead" }; diag_log "dead" } catch { _exception + "c" }
+   yields "abc": a throw out of a handler goes to the next handler outwards *)
+Definition ex_rethrow : expr :=
+  EBinary "catch"
+    (EUnary "try" (ECode [SExpr (EBinary "catch" (EUnary "try" (ECode [SExpr (EUnary "throw" (EStr "a"))]))
+                                                (ECode [SExpr (EUnary "throw" (EBinary "+" (EVar "_exception") (EStr "b")));
+                                                        SExpr (EUnary "diag_log" (EStr "dead"))]));
+                          SExpr (EUnary "diag_log" (EStr "dead"))]))
+    (ECode [SExpr (EBinary "+" (EVar "_exception") (EStr "c"))]).
+Example rethrow_inhabited : exists s', zev init_state ex_rethrow (RStr "abc") s' /\ st_trace s' = [].
+Proof.
+  eexists. split.
+  { change (RStr "abc") with (val_of (BNorm (RStr "abc"))).
+    eapply ZCatchThrow; [reflexivity|eapply ZTryVal; [reflexivity|intros ? ?; discriminate|eapply ZCode]|eapply ZCode| |].
+    - eapply ZTHandler; [reflexivity|eapply ZTryVal; [reflexivity|intros ? ?; discriminate|eapply ZCode]|eapply ZCode| |].
+      + eapply ZTThrow; [reflexivity|intros ? ?; discriminate|eapply ZPure; eapply PStr|split; discriminate].
+      + eapply ZTThrow.
+        { reflexivity. } { intros ? ?; discriminate. }
+        { eapply ZPure. eapply PBin; [eapply PVarL; reflexivity|eapply PStr|reflexivity]. }
+        { split; discriminate. }
+    - eapply ZBLast. eapply ZSExprV. eapply ZPure. eapply PBin; [eapply PVarL; reflexivity|eapply PStr|reflexivity]. }
+  reflexivity.
+Qed.
+(* ... and the program above on a concrete machine: C02_program_runs / C02_program_trace apply to it *)
+Definition ex_running_try : rt :=
+  let r := load (create_rt [] 0 0 0 150) (compile_block ex_try_prog) in
+  rt_with r (r_ctxs r) (Some 0) StRunning false false true false [] [] (r_nss r) (r_clock r) (r_timestamp r) (r_next_id r).
+Example try_program_premises :
+  let c := push_frame (new_context 0 false) (mk_frame default_ns (compile_block ex_try_prog) None None []) in
+  let f := mk_frame default_ns (compile_block ex_try_prog) None None [] in
+  AtM init_state RNone ex_running_try c f [] [] /\ f_code f = compile_block ex_try_prog /\ f_pos f = 0 /\ f_exit f = None.
+Proof.
+  cbv zeta. split; [|repeat split].
+  split; [|split; [reflexivity|exists []; split; reflexivity]].
+  split; [unfold Good; split; [reflexivity|cbn; auto 10]|]. split; [reflexivity|]. split.
+  - split; [|reflexivity]. cbn. constructor; [|constructor]. split; [intros k; reflexivity|split; reflexivity].
+  - split; [cbn; lia|reflexivity].
 Qed.
